@@ -114,7 +114,7 @@ ResObj(path) == path \o "#" \o ToString(gen)      \* the object the resource's h
 NoEnt    == <<"-", 0>>
 NoWho    == <<"-", 0, 0>>
 NoDicts  == [procs |-> <<>>, ents |-> <<>>]
-NoDesc   == [procs |-> <<>>, ents |-> <<>>]
+NoDesc   == [procs |-> <<>>, ents |-> <<>>, forgotten |-> TRUE]     \* Lean: not a description (the empty one has no third field)
 IsFile(md) == md \in {"file1", "file2", "file"}
 
 -----------------------------------------------------------------------------
@@ -334,7 +334,7 @@ Enable == /\ pc = "loaded"
 Access == /\ pc \in {"loaded", "enabled"} /\ mode # "bare"
           /\ UNCHANGED vars
 
-SecondRound == round = 1 /\ mode = "file" /\ Again(desc)
+SecondRound == round = 1 /\ mode = "file" /\ desc # NoDesc /\ Again(desc)
 ClearHandle == /\ pc = "enabled" /\ SecondRound
                /\ pc' = "cleared" /\ round' = 2 /\ w' = NewWorld(TRUE)
                /\ UNCHANGED <<desc, gen, mode, dicts, err>>
